@@ -30,7 +30,9 @@ THEOREMS = {
     "C08": ["keys_eq_arms", "added_immediately", "removed_never_returns", "arms_unchanged_by_training", "unwrap_shape",
             "predictExp_keys", "predict_mem", "argmaxFirst_mem", "draw_length", "chunk_rows",
             "predictExp_keys_greedy", "assembleRows_keys", "predictExp_keys_linear", "predictExp_keys_all", "fit_wf",
-            "partialFit_wf", "addArm_wf", "removeArm_wf", "warmStart_wf", "predictExp_wf", "nhoodRow_keys"],
+            "partialFit_wf", "addArm_wf", "removeArm_wf", "warmStart_wf", "predictExp_wf", "nhoodRow_keys",
+            "binv_init", "binv_impFit", "binv_impPartialFit", "binv_impAddArm", "binv_impRemoveArm", "binv_step",
+            "binv_reachable", "query_outputs_over_arms"],
     "C09": ["argmax_first", "foldMax_spec", "argmaxFirst_mem", "predict_eq_argmax", "leWith_val"],
     "C10": ["predictExp_readonly", "predict_readonly", "impPredict_readonly", "query_readonly",
             "fit_normT", "partialFit_normT", "addArm_normT", "removeArm_normT", "warmStart_normT", "predictExp_normT",
@@ -69,7 +71,7 @@ IMPORTS = {
     "C05": ["MabModel.Props.C05", "MabModel.Props.C05b", "MabModel.Props.C05c", "MabModel.Props.C05d"],
     "C06": ["MabModel.Props.C06", "MabModel.Props.C06b"],
     "C07": ["MabModel.Props.C07", "MabModel.Props.C05c", "MabModel.Props.C07b"],
-    "C08": ["MabModel.Props.C08", "MabModel.Props.C08b"],
+    "C08": ["MabModel.Props.C08", "MabModel.Props.C08b", "MabModel.Props.C08c"],
     "C09": ["MabModel.Props.C09"],
     "C10": ["MabModel.Props.C10", "MabModel.Props.C10b"],
     "C11": ["MabModel.Props.C11"],
